@@ -110,7 +110,7 @@ def fstep (s : FS) (p : Pid) (timeout : Bool) : Option FS :=
       some { s with name := pr.temp, procs := setProc s.procs p { pr with pc := .wUnlock, saved := true } }
     | .wUnlock =>
       match pr.handle with
-      | none => some { s with procs := setProc s.procs p { pr with pc := .done } }
+      | none => some { s with procs := setProc s.procs p { pr with pc := .done, locked := false } }
       | some i =>
         match s.inodes[i]? with
         | none => none
